@@ -468,14 +468,6 @@ class NP:
                 j -= 1
         return np.array(idx, dtype=np.int64)
 
-    def float64(self, x=0.0):
-        if issym(x): return x
-        return np.float64(x)
-
-    def complex128(self, x=0.0):
-        if issym(x): return x
-        return np.complex128(x)
-
 
 def _csqrt(x):
     raise Abort("sqrt of symbolic complex")
